@@ -89,6 +89,7 @@ def rules(tier):
         "fit": fd(pp=st.none(), **small),
         "find_best_fit": fd(pp=st.none(), **small),
         "measurements": fd(pp=st.none(), ci=st.integers(0, 1)),
+        "curve_metrics": fd(pp=st.none(), ci=st.integers(0, 1)),
         "membrane": fd(pp=st.none(), ci=st.integers(0, 1), what=st.sampled_from(["permeance", "activation_energy", "selectivity", "pure_flux"]),
                        basis=st.sampled_from(["molar", "weight"])),
     }
